@@ -10,6 +10,7 @@ import (
 	"fmt"
 	"math/rand"
 	"net/url"
+	"regexp"
 	"sort"
 	"strings"
 
@@ -77,7 +78,7 @@ func runConv(env *run.Env, g *genCase, wantPrefixes bool) *convOutcome {
 		return o
 	}
 	if r.Exit != 0 {
-		o.Conv = &clause{"rejected", "valid pair rejected: " + firstLines(r.Stderr, 3)}
+		o.Conv = &clause{"rejected:" + errorShape(r.Stderr), "valid pair rejected: " + firstLines(r.Stderr, 3)}
 		return o
 	}
 	o.Accepted = true
@@ -334,4 +335,21 @@ func scriptShape(script string) string {
 		l = append(l[:4], "...")
 	}
 	return strings.Join(l, "+")
+}
+
+var shapeWordRE = regexp.MustCompile(`'[^']*'|"[^"]*"|\\S*\\d\\S*`)
+
+// errorShape normalises the first ERROR>>> line of stderr to a class name.
+func errorShape(stderr string) string {
+	for _, l := range strings.Split(stderr, "\n") {
+		if rest, ok := strings.CutPrefix(l, "ERROR>>> "); ok {
+			rest = shapeWordRE.ReplaceAllString(rest, "X")
+			w := strings.Fields(rest)
+			if len(w) > 7 {
+				w = w[:7]
+			}
+			return strings.Join(w, "_")
+		}
+	}
+	return "no-error-line"
 }
